@@ -31,35 +31,63 @@ def run(ctx):
     w = world(ctx)
     f = prog.func(f"{S}:merge_parts", "C15")
     ctx.touch(f)
-    # ---- RESC
-    ctx.rule("RESC", "new_start and new_end are e.start.t / e.end.t times time_multiplier_per_part[p_ind] (same index), and the factors are int(lcm / d)")
+    # ---- RESC (locals found by role: the call <merged>.add(E, start=S, end=En))
+    ctx.rule("RESC", "start and end of each transferred element are its own start/end times multiplied by the same per-part factor "
+                     "T[i] (i the part index), with T = [int(lcm / d) ...] and lcm = np.lcm.reduce(divisions)")
     defs = {}
     for n in own_nodes(f.node):
         if isinstance(n, ast.Assign) and len(n.targets) == 1 and isinstance(n.targets[0], ast.Name):
             defs.setdefault(n.targets[0].id, []).append(n.value)
-    for var, attr in (("new_start", "start"), ("new_end", "end")):
-        vs = defs.get(var, [])
-        ok = len(vs) == 1
+    merged = [k for k, vs in defs.items() for v in vs if isinstance(v, ast.Call) and norm(v.func) == "Part"]
+    ctx.require(len(merged) == 1, "RESC", f.qname, "merged part variable not found")
+    mp = merged[0]
+    adds = [c for c in own_nodes(f.node) if isinstance(c, ast.Call) and norm(c.func) == f"{mp}.add"]
+    ok_add = len(adds) == 1 and adds[0].args and isinstance(adds[0].args[0], ast.Name) and \
+        all(isinstance(k.value, ast.Name) for k in adds[0].keywords) and {k.arg for k in adds[0].keywords} == {"start", "end"}
+    ctx.check(ok_add, "RESC", "elements added at the rescaled times", func=f, construct="rescale:add",
+              msg="<merged>.add(e, start=<rescaled start>, end=<rescaled end>) expected")
+    factor_tabs = set()
+    if ok_add:
+        ev = adds[0].args[0].id
+        kws = {k.arg: k.value.id for k in adds[0].keywords}
+        for var, attr in ((kws["start"], "start"), (kws["end"], "end")):
+            vs = defs.get(var, [])
+            ok = len(vs) == 1
+            if ok:
+                v = vs[0].body if isinstance(vs[0], ast.IfExp) else vs[0]
+                ok = isinstance(v, ast.BinOp) and isinstance(v.op, ast.Mult)
+                if ok:
+                    sides = {norm(v.left): v.left, norm(v.right): v.right}
+                    tpart = [x for k, x in sides.items() if k != f"{ev}.{attr}.t"]
+                    ok = f"{ev}.{attr}.t" in sides and len(tpart) == 1 and isinstance(tpart[0], ast.Subscript) and isinstance(tpart[0].value, ast.Name) \
+                        and isinstance(tpart[0].slice, ast.Name)
+                    if ok:
+                        factor_tabs.add((tpart[0].value.id, tpart[0].slice.id))
+            ctx.check(ok, "RESC", f"{attr} time x per-part factor", func=f, construct=f"rescale:new_{attr}",
+                      msg=f"the {attr} position handed to <merged>.add must be e.{attr}.t times the per-part factor: positions and durations are "
+                          f"rescaled to the lcm of the divisions")
+    ctx.check(len(factor_tabs) == 1, "RESC", "same factor for start and end", func=f, construct="rescale:same-factor",
+              msg=f"start and end must use the same factor table and index (found {sorted(factor_tabs)})")
+    lcmv = None
+    if len(factor_tabs) == 1:
+        tab, idx = next(iter(factor_tabs))
+        tm = defs.get(tab, [])
+        ok = len(tm) == 1 and isinstance(tm[0], ast.ListComp) and isinstance(tm[0].elt, (ast.Call, ast.BinOp))
         if ok:
-            v = vs[0].body if isinstance(vs[0], ast.IfExp) else vs[0]
-            ok = isinstance(v, ast.BinOp) and isinstance(v.op, ast.Mult) and {norm(v.left), norm(v.right)} == {f"e.{attr}.t", "time_multiplier_per_part[p_ind]"}
-        ctx.check(ok, "RESC", f"{var} = e.{attr}.t * factor[p_ind]", func=f, construct=f"rescale:{var}",
-                  msg=f"`{var}` must be e.{attr}.t * time_multiplier_per_part[p_ind]: positions and durations are rescaled to the lcm of the divisions")
-    tm = defs.get("time_multiplier_per_part", [])
-    ok = len(tm) == 1 and isinstance(tm[0], ast.ListComp) and norm(tm[0].elt) in ("int(lcm / d)", "lcm // d", "int(lcm // d)")
-    ctx.check(ok, "RESC", "factors are lcm / divisions", func=f, construct="rescale:factors", msg="time_multiplier_per_part must be [int(lcm / d) for d in divisions]")
-    lcm = defs.get("lcm", [])
-    ctx.check(len(lcm) == 1 and norm(lcm[0]).startswith("np.lcm.reduce("), "RESC", "lcm over all parts' divisions", func=f, construct="rescale:lcm",
-              msg="lcm must be np.lcm.reduce over the parts' quarter durations")
-    adds = [c for c in own_nodes(f.node) if isinstance(c, ast.Call) and norm(c.func) == "new_part.add"]
-    ok = len(adds) == 1 and {k.arg: norm(k.value) for k in adds[0].keywords} == {"start": "new_start", "end": "new_end"} and norm(adds[0].args[0]) == "e"
-    ctx.check(ok, "RESC", "elements added at the rescaled times", func=f, construct="rescale:add", msg="new_part.add(e, start=new_start, end=new_end) expected")
+            e = tm[0].elt.args[0] if isinstance(tm[0].elt, ast.Call) and norm(tm[0].elt.func) == "int" and tm[0].elt.args else tm[0].elt
+            ok = isinstance(e, ast.BinOp) and isinstance(e.op, (ast.Div, ast.FloorDiv)) and isinstance(e.left, ast.Name) and norm(e.right) == norm(tm[0].generators[0].target)
+            if ok:
+                lcmv = e.left.id
+        ctx.check(ok, "RESC", "factors are lcm / divisions", func=f, construct="rescale:factors", msg="the factor table must be [int(lcm / d) for d in divisions]")
+        lcm = defs.get(lcmv, []) if lcmv else []
+        ctx.check(len(lcm) == 1 and norm(lcm[0]).startswith("np.lcm.reduce("), "RESC", "lcm over all parts' divisions", func=f, construct="rescale:lcm",
+                  msg="lcm must be np.lcm.reduce over the parts' quarter durations")
     # ---- F2a / F2b: owner API
     TL.rule_F2a(ctx, only_funcs={f.qname})
     ctor = [c for c in own_nodes(f.node) if isinstance(c, ast.Call) and norm(c.func) == "Part"]
     kw = {k.arg: norm(k.value) for c in ctor for k in c.keywords}
     ctx.rule("QDUR", "the merged part is constructed with quarter_duration=lcm (owner API)")
-    ctx.check(len(ctor) == 1 and kw.get("quarter_duration") == "lcm", "QDUR", "Part(..., quarter_duration=lcm)", func=f, construct="merged-quarter-duration",
+    ctx.check(len(ctor) == 1 and lcmv is not None and kw.get("quarter_duration") == lcmv, "QDUR", "Part(..., quarter_duration=lcm)", func=f, construct="merged-quarter-duration",
               msg="the merged part must be created with the lcm as its quarter duration (every time point then carries it)")
     # ---- OFFSET
     ctx.rule("OFFSET", "voice offset = sum(maximum_voices[:p_ind]); staff offset = sum(maximum_staves[:p_ind]) with a missing staff counted as 1; "
@@ -69,9 +97,11 @@ def run(ctx):
         out = []
         for n in own_nodes(f.node):
             tgt = val = None
-            if isinstance(n, ast.Assign) and len(n.targets) == 1 and norm(n.targets[0]) == f"e.{attr}":
+            if isinstance(n, ast.Assign) and len(n.targets) == 1 and isinstance(n.targets[0], ast.Attribute) and n.targets[0].attr == attr \
+                    and isinstance(n.targets[0].value, ast.Name):
                 tgt, val = n.targets[0], n.value
-            elif isinstance(n, ast.AugAssign) and norm(n.target) == f"e.{attr}" and isinstance(n.op, ast.Add):
+            elif isinstance(n, ast.AugAssign) and isinstance(n.target, ast.Attribute) and n.target.attr == attr and isinstance(n.target.value, ast.Name) \
+                    and isinstance(n.op, ast.Add):
                 tgt, val = n.target, n.value
             if tgt is None:
                 continue
@@ -86,12 +116,15 @@ def run(ctx):
             out.append((guard, val))
         return out
 
+    part_index = {norm(l.target.elts[0]) for l in own_nodes(f.node) if isinstance(l, ast.For) and isinstance(l.iter, ast.Call) and norm(l.iter.func) == "enumerate"
+                  and isinstance(l.target, ast.Tuple)}
+
     def has_prefix_sum(expr, table):
         for c in ast.walk(expr):
             if isinstance(c, ast.Call) and norm(c.func) == "sum" and c.args:
                 a = c.args[0]
-                if isinstance(a, ast.Subscript) and norm(a.value) == table and isinstance(a.slice, ast.Slice) and a.slice.lower is None \
-                        and a.slice.upper is not None and norm(a.slice.upper) == "p_ind":
+                if isinstance(a, ast.Subscript) and isinstance(a.value, ast.Name) and isinstance(a.slice, ast.Slice) and a.slice.lower is None \
+                        and a.slice.upper is not None and norm(a.slice.upper) in part_index:
                     return True
         return False
 
@@ -107,8 +140,10 @@ def run(ctx):
               msg="in staff mode e.staff (1 if missing) must be shifted by sum(maximum_staves[:p_ind])")
     a_v = [v for g, v in offset_terms("voice") if g == "auto"]
     a_s = [v for g, v in offset_terms("staff") if g == "auto"]
-    ok_auto = len(a_v) == 1 and len(a_s) == 1 and isinstance(a_v[0], ast.Subscript) and norm(a_v[0].value) == "voice_mapping" \
-        and isinstance(a_s[0], ast.Subscript) and norm(a_s[0].value) == "staff_mapping"
+    mappings = {k for k, vs in defs.items() for v in vs if isinstance(v, ast.Call) and norm(v.func) == "dict" and v.args and isinstance(v.args[0], ast.Call)
+                and norm(v.args[0].func) == "zip"}
+    ok_auto = len(a_v) == 1 and len(a_s) == 1 and isinstance(a_v[0], ast.Subscript) and norm(a_v[0].value) in mappings \
+        and isinstance(a_s[0], ast.Subscript) and norm(a_s[0].value) in mappings and norm(a_v[0].value) != norm(a_s[0].value)
     ctx.check(ok_auto, "OFFSET", "auto mode mappings", func=f, construct="offset:auto", msg="auto mode must renumber through voice_mapping / staff_mapping")
     X.rule_offset_table_is_max(ctx)
     # ---- DISCARD
@@ -119,7 +154,8 @@ def run(ctx):
         if isinstance(n, ast.If) or True:
             pass
     for n in own_nodes(f.node):
-        if isinstance(n, ast.Assign) and norm(n.targets[0]) == "el_to_discard" and isinstance(n.value, ast.Tuple):
+        if isinstance(n, ast.Assign) and isinstance(n.targets[0], ast.Name) and isinstance(n.value, ast.Tuple) and len(n.value.elts) >= 5 \
+                and all(isinstance(e, ast.Name) and e.id[:1].isupper() for e in n.value.elts):
             guard = norm(n._parent.test) if isinstance(getattr(n, "_parent", None), ast.If) else "?"
             tuples[guard] = {norm(e) for e in n.value.elts}
     ctx.check(len(tuples) == 2, "DISCARD", "one tuple per mode family", func=f, construct="discard:tuples", msg=f"discard tuples found under guards {sorted(tuples)}")
@@ -127,7 +163,9 @@ def run(ctx):
         need = DOC_STRUCTURAL if "voice" in guard else DOC_STRUCTURAL - {"Clef"}
         ctx.check(need <= classes, "DISCARD", f"[{guard}] discards {sorted(need)}", func=f, construct=f"discard:{'voice' if 'voice' in guard else 'staff'}",
                   msg=f"under `{guard}` the classes {sorted(need - classes)} are not discarded from later parts: structural elements would be duplicated")
-    use = [n for n in own_nodes(f.node) if isinstance(n, ast.If) and "p_ind == 0" in norm(n.test) and "el_to_discard" in norm(n.test)]
+    use = [n for n in own_nodes(f.node) if isinstance(n, ast.If) and isinstance(n.test, ast.BoolOp) and isinstance(n.test.op, ast.Or)
+           and any(norm(v) in {f"{i} == 0" for i in part_index} for v in n.test.values)
+           and any(isinstance(v, ast.UnaryOp) and isinstance(v.op, ast.Not) and "isinstance" in norm(v) for v in n.test.values)]
     ctx.check(len(use) == 1, "DISCARD", "first part copied fully, later parts filtered", func=f, construct="discard:use",
               msg="the transfer must be guarded by `p_ind == 0 or not isinstance(e, el_to_discard)`")
     # ---- modes
@@ -158,7 +196,7 @@ def run(ctx):
     if single:
         dom = cfg.dominators(include_exc=False)
         first_effect = min((n.lineno for n in cfg.nodes if n.ast is not None and any(
-            (isinstance(x, ast.Attribute) and isinstance(x.ctx, ast.Store)) or (isinstance(x, ast.Call) and norm(x.func) in ("Part", "new_part.add"))
+            (isinstance(x, ast.Attribute) and isinstance(x.ctx, ast.Store)) or (isinstance(x, ast.Call) and norm(x.func) in ("Part", f"{mp}.add"))
             for x in ast.walk(n.ast) if not isinstance(x, ast.Raise))), default=10 ** 9)
         ret_ok = any(isinstance(m.ast, ast.Return) and norm(m.ast.value) == "parts[0]" for m, l in single[0].succ if l == "T" and m.ast is not None)
         ctx.check(ret_ok and single[0].lineno < first_effect, "SINGLE", "returned as is, before any effect", func=f, construct="single:order",
